@@ -219,6 +219,14 @@ func NewWriter(w io.Writer, v Version, opt *WriterOptions) (*Writer, error) {
 				Length: 128,
 			}
 			V = 4
+		} else if v >= V1_5 {
+			// RC4 through a crypt filter, so that /Crypt filters of
+			// streams have a meaning
+			cf = &cryptFilter{
+				Cipher: cipherRC4,
+				Length: 128,
+			}
+			V = 4
 		} else if v >= V1_4 {
 			cf = &cryptFilter{
 				Cipher: cipherRC4,
@@ -936,6 +944,14 @@ func (w *Writer) OpenStream(ref Reference, dict Dict, filters ...Filter) (io.Wri
 	}
 	if leadingCrypt == nil {
 		leadingCrypt = dictCrypt
+	}
+	if leadingCrypt != nil && w.w.enc != nil {
+		// Crypt filters exist only where the encryption dictionary has /V 4
+		// or 5.  In a /V 1 or 2 file a reader decrypts every stream, so
+		// that a stream left in the clear would be turned into garbage.
+		if V, _ := w.encryptDict["V"].(Integer); V < 4 {
+			return nil, errors.New("Crypt filter in an encrypted file without crypt filters (needs PDF 1.5)")
+		}
 	}
 
 	// A caller-supplied /Length must be a value we can check against the data
